@@ -177,7 +177,7 @@ package fsnotify
 //@   ensures nolocks()                                                                              [C05 C07]
 //@   ensures old(closed(w.done)) ==> err == ErrClosed && !didLock(shared.mu)                        [C06] "after Close, Add fails with ErrClosed"
 //@   ensures modeA && didLock(shared.mu) && err == nil ==> Watched(w, filepath.Clean(path))         [C01 C02 C04 C08 C09 C12] "a successful Add leaves the file watched: listed under the cleaned argument, or already watched under the name it was first added as"
-//@   atcall inotify.register: arg_flags == requestInotify(with.op, with.noFollow)                   [C01 C15] "the native flags requested are exactly those needed for the requested operations"
+//@   atcall inotify.register: arg_flags == requestInotify(with.op, with.noFollow)                   [C01 C04 C09 C12 C15] "the native flags requested are exactly those needed for the requested operations"
 //@   atcall inotify.register: modeA ==> arg_path == p && !arg_recurse                               [C01 C02 C04 C08 C09 C12] "the watch is registered under the cleaned Add argument"
 //@   atcall inotify.register: modeB ==> arg_recurse == incallback() && arg_flags == requestInotify(with.op, with.noFollow)     [C19] "every directory found by the walk of a recursive Add gets a recursive watch with the requested flags; a plain Add gets a plain one"
 //@   callback filepath.WalkDir: held(shared.mu) && !held(inotify.cookiesMu) && Wf(w) && TablesInv(w.watches) && KInv(w.watches) && token(sawOpen)     [C19 C07] "every directory of the walk is registered under the same lock, and the tables stay consistent from one to the next"
